@@ -267,6 +267,34 @@ func mergeTrace(en *Env, cfg h.Cfg, t int) (merges, mok int) {
 			}
 		}
 	}
+	if t%3 == 1 {
+		// a merge that gives up half-way (its output would need more files than took part: the database is
+		// reopened with a much smaller file-size limit), leaving an unmarked merge directory with rewritten
+		// records; then deletes and overwrites; the following rounds merge again and restart
+		for k := 1; k <= nkeys && !e.Dead; k++ {
+			id, _ := vs.New(150 + r.Intn(100))
+			e.Put(k, id)
+		}
+		big := e.Cfg
+		small := e.Cfg
+		small.Limit = 120
+		e.Dump()
+		if e.Close() != "ok" || e.Open(small) != "ok" {
+			return
+		}
+		e.Dump()
+		e.Merge()
+		merges++
+		e.Dump()
+		if e.Dead || e.Close() != "ok" || e.Open(big) != "ok" {
+			return
+		}
+		e.Dump()
+		e.Delete(1)
+		if nkeys > 2 {
+			e.Put(2, val())
+		}
+	}
 	rounds := 1 + r.Intn(3)
 	for rd := 0; rd < rounds && !e.Dead; rd++ {
 		write(3 + r.Intn(12))
